@@ -69,7 +69,23 @@ pub fn peer_ip(i: u8) -> IpAddr {
     }
 }
 
+/// first index of the VPNv4 prefixes (C20's VRF distribution); indexes below it are taken modulo N_PREFIX
+pub const VPN_PREFIX_BASE: u8 = 200;
+pub const N_VPN_PREFIX: u8 = 4;
+
+/// route targets used by the VRFs of `Rig::with_vrfs` (8-octet extended communities)
+pub fn route_target(n: u8) -> [u8; 8] {
+    [0x00, 0x02, 0xfd, 0xe8, 0, 0, 0, n]
+}
+
 pub fn prefix(i: u8) -> (Family, packet::Nlri) {
+    if i >= VPN_PREFIX_BASE {
+        // one route distinguisher per prefix: what a VRF should hold when two VPN routes map
+        // to the same VRF prefix is not fixed by any statement here
+        let k = (i - VPN_PREFIX_BASE) % N_VPN_PREFIX;
+        let n = packet::vpn::VpnV4Nlri { labels: packet::mpls::MplsLabelStack::new(vec![packet::mpls::MplsLabel::new(100 + k as u32)]), rd: packet::rd::RouteDistinguisher::TwoOctetAs { admin: 65000, assigned: 1 + k as u32 }, prefix: bgp::Ipv4Net { addr: Ipv4Addr::new(10, 50 + k, 0, 0), mask: 16 } };
+        return (Family::IPV4_VPN, packet::Nlri::VpnV4(n));
+    }
     let i = i % N_PREFIX;
     if i < 7 {
         (Family::IPV4, v4(10, 1 + i, 0, 0, 16 + i))
@@ -83,6 +99,23 @@ pub fn nh_addr(k: u8, v6: bool) -> Nexthop {
 }
 
 pub fn attrs_variant(v: u8) -> Arc<Vec<packet::Attribute>> {
+    if v >= 100 {
+        // VPN routes: base variant (v - 100) % 3, route targets by ((v - 100) / 3) % 4: {1}, {2}, {1, 2}, none
+        let k = v - 100;
+        let mut attrs = (*attrs_variant(k % 3)).clone();
+        let rts: Vec<u8> = match (k / 3) % 4 {
+            0 => vec![1],
+            1 => vec![2],
+            2 => vec![1, 2],
+            _ => vec![],
+        };
+        if !rts.is_empty() {
+            let bin: Vec<u8> = rts.iter().flat_map(|n| route_target(*n)).collect();
+            attrs.push(packet::Attribute::new_with_bin(packet::Attribute::EXTENDED_COMMUNITY, bin).unwrap());
+            attrs.sort_by_key(|a| a.code());
+        }
+        return Arc::new(attrs);
+    }
     let v = v % 6;
     let spec = AttrSpec {
         origin: Some(0),
@@ -172,6 +205,17 @@ impl Rig {
         Rc::new(Rig { tm, sources, subs: RefCell::new(Vec::new()), policies, fired: Cell::new(0), in_nested: Cell::new(false), kernel_rx: RefCell::new(kernel_rx), _policy_tables: keep })
     }
 
+    /// `with_roles(true, ..)` plus three VRFs: "a" (table 10, imports RT 1), "b" (table 20, imports RT 1 and 2),
+    /// "c" (no kernel table, imports RT 2)
+    pub fn with_vrfs() -> Rc<Rig> {
+        let rig = Self::with_roles(true, [0, 0, 0]);
+        let rd = |n: u32| packet::rd::RouteDistinguisher::TwoOctetAs { admin: 65000, assigned: 100 + n };
+        let _ = rig.tm.add_vrf("a".into(), rd(1), [route_target(1)].into_iter().collect(), vec![route_target(1)], 10);
+        let _ = rig.tm.add_vrf("b".into(), rd(2), [route_target(1), route_target(2)].into_iter().collect(), vec![route_target(2)], 20);
+        let _ = rig.tm.add_vrf("c".into(), rd(3), [route_target(2)].into_iter().collect(), vec![], 0);
+        rig
+    }
+
     pub fn apply(self: &Rc<Self>, op: &TmOp) {
         match op {
             TmOp::Insert { peer, prefix: p, path_id, attrs, nh } => {
@@ -187,16 +231,16 @@ impl Rig {
             TmOp::DropPeer { peer } => {
                 let src = &self.sources[(*peer % N_PEERS) as usize];
                 // the daemon's order on session loss (PeerSession::run): routes first, then the event
-                self.tm.unregister_peer(src.remote_addr, &[Family::IPV4, Family::IPV6], &[]);
+                self.tm.unregister_peer(src.remote_addr, &[Family::IPV4, Family::IPV6, Family::IPV4_VPN], &[]);
                 self.tm.peer_down(PeerDownData { peer_addr: src.remote_addr, peer_asn: src.remote_asn, peer_id: src.router_id, uptime: 0, reason: packet::bmp::PeerDownReason::RemoteUnexpected });
             }
             TmOp::MarkStale { peer } => {
                 let src = &self.sources[(*peer % N_PEERS) as usize];
-                self.tm.unregister_peer(src.remote_addr, &[], &[Family::IPV4, Family::IPV6]);
+                self.tm.unregister_peer(src.remote_addr, &[], &[Family::IPV4, Family::IPV6, Family::IPV4_VPN]);
             }
             TmOp::DropStale { peer } => {
                 let src = &self.sources[(*peer % N_PEERS) as usize];
-                self.tm.drop_stale_families(src.remote_addr, &[Family::IPV4, Family::IPV6]);
+                self.tm.drop_stale_families(src.remote_addr, &[Family::IPV4, Family::IPV6, Family::IPV4_VPN]);
             }
             TmOp::SoftResetIn { peer, policy } => {
                 let pol = self.policies[*policy as usize % self.policies.len()].clone();
